@@ -165,6 +165,9 @@ def run_case(case, ctx):
         mask = None
         if rs.rand() < 0.3:
             mask = (rs.uniform(size=[m.shape[0] for m in rem]) < 0.6).astype(dt)
+            if rs.rand() < 0.3:
+                # a weighting mask (fractional / signed observation weights): "applied entrywise" means multiplied in
+                mask = (mask * rs.uniform(-1, 2, size=mask.shape)).astype(dt)
         desc.update(mats=[list(m.shape) for m in mats], skip=skip, weights=w is not None, mask=mask is not None)
         cls = ("single" if len(rem) == 1 else "multi") + ("+weights" if w is not None else "") + ("+mask" if mask is not None else "")
         f = lambda: tenalg.khatri_rao(list(mats), weights=w, skip_matrix=skip, mask=mask)
@@ -253,7 +256,7 @@ def run_case(case, ctx):
         r = ref.mttkrp(T, w, factors, mode)
     elif fn == "higher_order_moment":
         n = rs.randint(1, 5)
-        feat = gen.shape(rs, rs.randint(1, 3), 1, 3)
+        feat = gen.shape(rs, rs.randint(1, 4), 1, 3)     # samples that are vectors, matrices or order-3 tensors
         order = int(rs.randint(1, 4))
         X = A([n] + feat)
         desc.update(shape=list(X.shape), order=order)
